@@ -199,6 +199,11 @@ class ExprMixin(object):
         return wrap_const(self.ce.eval(cm, cnode, "E5.classattr"))
 
     def getattr(self, st, base, name, node, module):
+        hook = getattr(self, "attr_hook", None)
+        if hook is not None:
+            r = hook(st, base, name, node, module)
+            if r is not None:
+                return r
         if isinstance(base, Ref):
             o = st.heap[base.id]
             if o.kind == "inst":
@@ -836,6 +841,16 @@ class ExprMixin(object):
                 isinstance(x, Fin) and all(isinstance(v_, (str, int, Num)) and not isinstance(v_, bool) for v_ in x.table.values())
             ) or isinstance(x, P) or (isinstance(x, App) and x.op in ("cat", "str", "join"))
 
+        for x, y in ((a, b), (b, a)):
+            if isinstance(x, App) and x.op == "ite":
+                # e.g. d.get(k, DEFAULT) is DEFAULT: the default arm is the very object compared with
+                return self.mk_ite(st, x.args[0], self.identity(st, x.args[1], y, node, module), self.identity(st, x.args[2], y, node, module))
+        if isinstance(a, Const) and isinstance(b, Const) and isinstance(a.v, str) and isinstance(b.v, str):
+            self.event("value_identity", node, module, st, what="`is` between values (%s)" % short(node))
+            if a.v != b.v:
+                return FALSE
+            # two occurrences of one constant of the package: the same object
+            return TRUE
         if valueish(a) or valueish(b):
             # identity of strings / numbers: decided by whether two equal values happen to be one
             # object (interning, small-integer cache), not by the values
